@@ -28,6 +28,10 @@ T = {
         "quick": [("miri", "c12", 16, 16, 10, "sb")],
         "thorough": [("miri", "c12", 32, 32, 30, "sb"), ("miri", "smoke", 3, 3, 0, "nosb"), ("asan", "C12")],
     },
+    "C16": {
+        "quick": [("miri", "c16", 16, 16, 12, "sb")],
+        "thorough": [("miri", "c16", 32, 32, 150, "sb"), ("asan", "C16")],
+    },
     "C02": {"thorough": [("miri", "c02", 16, 16, 1500, "sb")]},
     "C08": {"thorough": [("miri", "c08", 16, 16, 1500, "sb")]},
     "C09": {"thorough": [("miri", "c09", 16, 16, 0, "sb")]},
